@@ -30,6 +30,10 @@ CHECKS = {
    text="For 11-13 session scenarios (v3 with 1-3 concurrent runs, signals, non-fatal errors, a later Execute; v1; unusable hellos) every byte offset of the server->client transcript x {EOF, read error, 0xFF garbage} and every client write index x {fails once, fails persistently} is enumerated as an environment choice, each under every thread schedule within the delay bound; ReadSchema/Execute/Close must return, nothing may panic or stay blocked, and success may be reported only for a run whose work-done message arrived intact, with exactly its payload.",
    note="Trusted: scheduler shim, rewriter, the scripted peer built from the repository's own message types; 0xFF-garbage argument for 'not intact' (DESIGN §4.2); timers virtual.",
    technique="exhaustive fault-point enumeration (every byte offset x fault kind, every write index) combined with delay-bounded schedule exploration of the implementation", design="DESIGN.md §4.2, §7 C08"),
+ "C12": dict(level="model_checking", engine="C+U",
+   text="(a) schema/ is compiled with every range-over-map and reflect MapKeys routed through the map-order seam; every (schema of U_2 that ranges over a map, operation, argument) is executed under the sorted order and under every single (thorough: every pair of) deviating iteration order(s), all permutations each; accept/reject and the returned value must be identical. (b) the argument's deep snapshot is compared before/after every call. (c) explicit-state BFS over call histories (depth 3, thorough 4, ~9 calls per schema incl. erroring, default-filling and unit-parsing calls) on one instance: states are deep dumps incl. unexported caches, and every reached instance must equal a fresh one on self-description and a probe set.",
+   note="Trusted: maporder rewrite, DeepDump/Snapshot, the probe set; recursive scopes are not used as schema arguments here (C15 reports their non-termination).",
+   technique="exhaustive exploration of map-iteration orders (environment nondeterminism, deviation-bounded) plus explicit-state breadth-first search over call histories with a differential fresh-instance oracle", design="DESIGN.md §4.1, §7 C12"),
  "C16": dict(level="exploration", engine="U",
    text="For the 5 built-in unit sets and 12 generated definitions (multipliers over {2,10,60,1000}, names that are prefixes of each other, names with regexp metacharacters): every integer in [0,200000], powers of ten, multiplier boundaries and the 63-bit edge formatted (short and long) and parsed back exactly; floats on two grids within tolerance; every well-formed string of 1-3 descending components over a count alphabet in 4 name/spacing variants must parse to the sum; near misses and 64-bit overflows must be errors.",
    note="Trusted: the reference sum/overflow computation in harness/c16; ambiguous strings (bare numbers, decimal counts, negative quantities) are outside the alphabet.",
